@@ -267,6 +267,75 @@ pub fn c10_cases(rng: &mut Rng, tier: &str, out: &mut Out) {
     }
 }
 
+/// C10 in bulk, oracle only (no model evaluation): many small archives of 3-5 files written one
+/// after the other; for EVERY ordered pair (x, y) a fresh reader reads x to its end and then reads y /
+/// asks y's hash: y's bytes, size and hash must be what was written (= what reading y alone gives).
+/// The sizes are random, so that over the whole job the place where the reader stands after x and the
+/// place where y starts take every relative alignment with respect to the chunk / block size.
+pub fn c10_order_cases(rng: &mut Rng, tier: &str, out: &mut Out) {
+    use sha2::{Digest, Sha256};
+    let n = if tier == "thorough" { 6000 } else { 1200 };
+    let unit = if cfg!(feature = "scaled") { 64usize } else { 131_072 };
+    for k in 0..n {
+        let layers = [L_ENC, 0, L_ENC, L_COMP | L_ENC][k % 4];
+        let nf = rng.range(3, 5) as usize;
+        let names: Vec<Vec<u8>> = (0..nf).map(|i| format!("{}", (b'a' + i as u8) as char).into_bytes()).collect();
+        let mut pieces = Vec::new();
+        for i in 0..nf {
+            let len = match rng.below(4) {
+                0 => rng.below(40) as usize,
+                1 => (unit + rng.below(100) as usize).saturating_sub(80),
+                2 => rng.below(2 * unit as u64 + 40) as usize,
+                _ => *rng.pick(&[0usize, 1, (2 * unit).saturating_sub(76), unit.saturating_sub(35), unit, unit + 1]),
+            };
+            pieces.push((i, rng.bytes(len)));
+        }
+        let plan = Plan { names: names.clone(), pieces, layers, level: 1, recipients: 1, reader_key: 0 };
+        let Ok(built) = build(rng, &plan) else { continue };
+        let privs = reader_keys(&plan, &built);
+        let mut msg: Option<String> = None;
+        'pairs: for x in 0..nf {
+            for y in 0..nf {
+                for second in [3u64, 1] {
+                    let ops = vec![vec![3, x as u64, 100_000], if second == 3 { vec![3, y as u64, 100_000] } else { vec![1, y as u64] }];
+                    let rows = run_history(&built.bytes, &privs, &names, &ops, false);
+                    let g = per_op(&rows);
+                    let exp = &built.contents[y];
+                    let ok = if g.len() != 2 {
+                        false
+                    } else if second == 3 {
+                        let mut got = Vec::new();
+                        let mut fine = g[1].first() == Some(&vec![7, exp.len() as u64]);
+                        for r in g[1].iter().skip(1) {
+                            if r[0] == 0 { got.extend(r[1..].iter().map(|v| *v as u8)); } else { fine = false; }
+                        }
+                        fine && &got == exp
+                    } else {
+                        let h = Sha256::digest(exp);
+                        g[1].len() == 1 && g[1][0][0] == 0 && g[1][0][1..].iter().map(|v| *v as u8).collect::<Vec<u8>>() == h.as_slice()
+                    };
+                    if !ok {
+                        msg = Some(format!("layers {layers}, files of {:?} bytes: after reading file {x} to its end, {} file {y} does not give what was written",
+                                           built.contents.iter().map(|c| c.len()).collect::<Vec<_>>(), if second == 3 { "reading" } else { "the hash of" }));
+                        break 'pairs;
+                    }
+                }
+            }
+        }
+        out.case(&Case {
+            id: format!("c10-order-{k}"),
+            model_fn: "",
+            args: vec![],
+            imp: json!([]),
+            oracle_ok: msg.is_none(),
+            oracle_msg: msg.unwrap_or_default(),
+            class: format!("pair-order layers={layers} files={nf}"),
+            nontrivial: true,
+            meta: json!({"layers": layers, "sizes": built.contents.iter().map(|c| c.len()).collect::<Vec<_>>()}),
+        });
+    }
+}
+
 // ------------------------------------------------------------------ C12
 
 /// Independent walk of a layer-less block stream: does it reach an EndOfArchiveData tag at a
